@@ -66,6 +66,10 @@ def build(spec: dict) -> Node:  # noqa: C901, PLR0911, PLR0912
         bg = urwid.BarGraph(["bg", "b1", "b2"])
         bg.set_data([[v] for v in spec.get("data", [1, 3, 2])], spec.get("top", 5))
         return Node(spec, "box", bg)
+    if t == "BigText":
+        fonts = (urwid.Thin3x3Font, urwid.HalfBlock5x4Font)
+        markup = spec.get("text", "12")
+        return Node(spec, "fixed", urwid.BigText((spec["attr"], markup) if spec.get("attr") else markup, fonts[spec.get("font", 0) % 2]()))
     if t == "GraphVScale":
         return Node(spec, "box", urwid.GraphVScale([(y, str(y)) for y in spec.get("labels", [1, 3])], spec.get("top", 5)))
     if t == "SolidFill":
@@ -85,6 +89,9 @@ def build(spec: dict) -> Node:  # noqa: C901, PLR0911, PLR0912
         return Node(spec, "flow", urwid.GridFlow([k.w for k in kids], spec.get("cw", 6), 1, 0, "left"), kids)
     if t == "Padding":
         width = spec.get("width", "relative")
+        if kids[0].kind == "fixed":
+            # a fixed widget (BigText) shown through a clipping Padding, which makes it a flow widget
+            return Node(spec, "flow", urwid.Padding(kids[0].w, width="clip"), kids)
         if width == "clip" and (kids[0].kind != "flow" or kids[0].spec["w"] not in ("Text", "Edit", "Button", "CheckBox")):
             width = "relative"
         return Node(spec, kids[0].kind, urwid.Padding(kids[0].w, left=spec.get("left", 1), right=spec.get("right", 1), **({"width": "clip"} if width == "clip" else {})), kids)
@@ -156,6 +163,7 @@ class _Run:
         self.log = EventLog(keep=bool(os.environ.get("VERIF_KEEP_LOG")))
         self.has_scrollable = False
         self.shift_flag_diverged = False
+        self.zero_row_list_item = False
 
     def edit_flags_differ(self) -> bool:
         """Edit keeps a 'shift the view to the cursor' flag that render(focus) sets: a render answered
@@ -165,6 +173,22 @@ class _Run:
         for a, b in zip(all_nodes(self.tree), all_nodes(self.twin)):
             if isinstance(a.w, urwid.Edit) and bool(a.w._shift_view_to_cursor) != bool(b.w._shift_view_to_cursor):  # noqa: SLF001
                 return True
+        return False
+
+    def twin_has_rowless_list_item(self) -> bool:
+        """Some ListBox holds an item that renders no rows at all (asked of the twin, so the cached tree is not touched)."""
+        for n in all_nodes(self.twin):
+            if n.spec["w"] != "ListBox":
+                continue
+            for c in n.kids:
+                if c.kind != "flow" or c.spec["w"] not in ("Pile", "Columns", "GridFlow", "AttrMap", "AttrWrap", "Padding", "WidgetPlaceholder", "LineBox"):
+                    continue
+                try:
+                    if c.w.rows((9,), False) == 0:
+                        return True
+                except Exception as e:  # noqa: BLE001
+                    if core.raised_in_harness(e):
+                        raise
         return False
 
     def listbox_focus_request_pending(self) -> bool:
@@ -181,12 +205,16 @@ class _Run:
             sig += " [tree-has-Scrollable]"
         elif self.shift_flag_diverged and clause in ("C06.1", "C06.3"):
             sig += " [edit-view-shift-flag-diverged-before-input]"
+        elif self.zero_row_list_item and clause in ("C06.1", "C06.2"):
+            sig += " [listbox-item-without-rows]"
         self.res.violate(P, clause, sig, msg)
         self.log.add("violation", f"{clause} {sig}")
 
     def size_for(self, n: Node, op: dict):
         c = COLS[op.get("c", 2) % len(COLS)]
         r = ROWS[op.get("r", 1) % len(ROWS)]
+        if n.kind == "fixed":
+            return ()
         return (c,) if n.kind == "flow" else (c, r)
 
     def invalidate_twin(self) -> None:
@@ -260,6 +288,19 @@ class _Run:
             else:
                 w.set_segment_attributes(["bg", f"b{k3 % 3}", "b2"])
             return "bargraph"
+        if t == "BigText":
+            k3 = op.get("t", 0)
+            cur = w.get_text()[0]
+            if m % 3 == 0:
+                w.set_text(["12", "7", "12:0", ""][k3 % 4])
+            elif m % 3 == 1:
+                # the same characters with other attributes
+                w.set_text([("hl", cur), cur, [("hl", cur[:1]), cur[1:]]][k3 % 3] if cur else "1")
+            else:
+                import urwid as _u  # noqa: PLC0415
+
+                w.set_font((_u.Thin3x3Font, _u.HalfBlock5x4Font)[k3 % 2]())
+            return "bigtext"
         if t == "GraphVScale":
             k3 = op.get("t", 0)
             w.set_scale([(1 + (k3 + j) % 4, "abcd"[(k3 + j) % 4]) for j in range(1 + k3 % 3)], 5 + m % 2)
@@ -332,6 +373,8 @@ class _Run:
         if t == "LineBox":
             w.set_title(txt[:8])
             return "linebox"
+        if t == "Padding" and n.kids and n.kids[0].kind == "fixed":
+            return "none"  # a clipping Padding around a fixed-only widget: another width type would be a misuse
         if t == "Padding":
             # only the property setters are public mutators (left/right are plain attributes)
             if m % 2:
@@ -361,7 +404,7 @@ class _Run:
                 n.kids.insert(i, new)
                 return "insert"
             if m % 4 == 1:
-                if len(n.kids) <= 1:
+                if len(n.kids) <= (0 if t == "Pile" else 1):  # a Pile may be emptied: it then has no rows at all
                     return "none"
                 i = op.get("i", 0) % len(n.kids)
                 del w.contents[i]
@@ -472,6 +515,10 @@ class _Run:
                     res.fault("gc_collect")
                     self.check_pool(i)
                     continue
+                if not self.zero_row_list_item and self.twin_has_rowless_list_item():
+                    # an item of a ListBox that has no rows at all (an emptied Pile); sticky for the run (known finding)
+                    self.zero_row_list_item = True
+                    res.probe("listbox_item_without_rows")
                 if (k in ("mouse", "key") or self.listbox_focus_request_pending()) and not self.shift_flag_diverged and self.edit_flags_differ():
                     self.shift_flag_diverged = True
                     res.probe("edit_view_shift_flag_diverged")
@@ -504,12 +551,18 @@ class _Run:
         except Exception as e:  # noqa: BLE001
             if core.raised_in_harness(e):
                 raise core.HarnessError(f"harness exception in op {op}: {core.format_exc(e)}") from e
-            return ("exc", type(e).__name__, core.exc_signature(e))
+            return ("exc", type(e).__name__, core.exc_signature(e), "rows but rendered" in str(e))
 
     def report_difference(self, i, op, out_c, out_f) -> None:
         k = op["op"]
         path_kind = node_at(self.tree, op.get("path", [])).spec["w"] if k != "key" and k != "mouse" else self.tree.spec["w"]
         if out_c[0] == "exc" or out_f[0] == "exc":
+            if (out_c[0] == "exc" and out_c[3]) or (out_f[0] == "exc" and out_f[3]):
+                # "calculated N rows but rendered M": an item whose rows() disagrees with its own render() (the render-size
+                # contract, C01).  Which of the two answers a container sees first depends on what happens to be cached;
+                # the disagreement itself is not the cache's.
+                self.res.probe("item_rows_disagree_with_its_render")
+                return
             which = "cached-tree-only" if out_f[0] != "exc" else ("fresh-tree-only" if out_c[0] != "exc" else "different")
             exc = out_c if out_c[0] == "exc" else out_f
             self.violate("C06.5", f"exception-{which}:{exc[2]} op={k}", f"step {i} {op}: cached {out_c!r:.300} fresh {out_f!r:.300}")
@@ -595,7 +648,7 @@ class CacheEngine(Engine):
                     # the container's focus position although nothing in it takes input
                     budget[0] -= 2
                     return {"w": rng.choice(["Pile", "Pile", "Columns"]), "modes": ["weight"], "div": 1, "kids": [{"w": "AttrMap", "attr": "a", "fattr": "f", "kids": [{"w": "Text", "text": rng.choice(TEXTS[1:5]), "wrap": "space", "align": "left"}]} for _ in range(rng.randint(2, 4))]}
-                return {"w": "Pile", "kids": [self.gen_tree(rng, "flow", depth - 1, budget) for _ in range(rng.randint(1, 3))]}
+                return {"w": "Pile", "kids": [self.gen_tree(rng, "flow", depth - 1, budget) for _ in range(rng.choice([0, 1, 1, 2, 2, 3]))]}
             if r < 0.62:
                 cspec = {"w": "Columns", "kids": [self.gen_tree(rng, "flow", depth - 1, budget) for _ in range(rng.randint(1, 3))], "modes": [rng.choice(["weight", "given", "weight2", "pack", "pack"]) for _ in range(3)], "div": rng.randint(0, 1)}
                 for ci in range(len(cspec["kids"])):
@@ -605,6 +658,8 @@ class CacheEngine(Engine):
                 return cspec
             if r < 0.68:
                 return {"w": "GridFlow", "kids": [self.gen_tree(rng, "flow", 0, budget) for _ in range(rng.randint(1, 4))], "cw": rng.choice([4, 6, 9])}
+            if r < 0.70:
+                return {"w": "Padding", "width": "clip", "left": 0, "right": 0, "kids": [{"w": "BigText", "text": rng.choice(["12", "7", "12:0"]), "attr": rng.choice([None, None, "hl"]), "font": rng.randrange(2)}]}
             if r < 0.76:
                 pspec = {"w": "Padding", "kids": [self.gen_tree(rng, "flow", depth - 1, budget)], "left": rng.choice([0, 1, 2, 2, 9]), "right": rng.choice([0, 1, 2, 9]), "width": rng.choice(["relative", "relative", "clip"])}
                 if pspec["width"] == "clip" and rng.random() < 0.6:
